@@ -1,4 +1,4 @@
-import Ledger.Proofs.ReadsMeta
+import Ledger.Proofs.ReadsTxMeta
 
 /-!
 C17 (read path) — metadata reads reflect the latest write, history reflects the past.
@@ -111,6 +111,26 @@ theorem current_meta_eq_fold (l : Ledger) (a : String) (r : AcctRow)
   obtain ⟨lb', _, _, hk⟩ := key
   rw [hr] at hk
   exact hk.1
+
+/-- **Transactions, history SYNC ⇒ the read at `t` is builder-core's `Spec.metaAt`** (the highest
+    `transactions_metadata` revision dated ≤ t: revision 1 dated by the transaction's timestamp,
+    later ones — changing saves, deletes of existing keys, reverts — by the write's date), for
+    every journal in which the transaction is committed once, before any write on it, with JSON
+    objects as metadata (`TxJournalOK`); no ordering of the dates is assumed. The SQL predicates
+    `not (metadata @> m)` / `metadata -> key is not null` that decide whether a revision is written
+    are shown equivalent to "the metadata changed". -/
+theorem tx_meta_at_t_sync (feat : Features) (l : Ledger) (id : Nat) (t : Int)
+    (h : feat.txMetaHist = true) (hok : TxJournalOK id false l.events) :
+    txMetaRead feat l id (some t) = metaAt l (.tx id) (some t) :=
+  txMetaRead_eq_metaAt feat l id t h hok
+
+/-- Non-vacuity: the hypothesis holds on a journal with a back-dated commit, a save, a no-op save, a
+    delete and a revert. -/
+example : TxJournalOK 1 false [
+    .committed { id := 1, postings := [⟨"world", "a", 1, "USD"⟩], timestamp := 2, insertedAt := 5, metadata := [("k", "v")] } [] true,
+    .metaWrite ⟨.tx 1, 10, .save [("x", "y")]⟩, .metaWrite ⟨.tx 1, 11, .save [("x", "y")]⟩,
+    .metaWrite ⟨.tx 1, 20, .delete "k"⟩, .reverted 1 30] := by
+  simp [TxJournalOK, Map.WF]
 
 /-- **Counterexample (code before fix 2c0d233) to "a read at time t returns the metadata as it was
     at t"** for accounts with history SYNC: `k` saved at 10, deleted at 20; the read at 15 already
